@@ -313,28 +313,6 @@ theorem lookup_self_isSome {α : Type} (k : Nat) (v : α) (l : List (Nat × α))
     (lookup k ((k, v) :: l)).isSome = true := by
   simp [lookup]
 
-/-- every cache entry's ghost agrees with the current configuration on what the entry depends on -/
-structure InvB (s : B) : Prop where
-  noCirc : s.circ = none → s.input = none ∧ s.iter = [] ∧ s.paths = []
-  inLen : ∀ inp c, s.input = some inp → s.circ = some c → inp.length = c.m
-  maskLen : ∀ inp mc, s.input = some inp → s.mask = some mc → mc.len = inp.length
-  minstNone : s.mask = none → s.minst = none
-  minstIn : ∀ inp, s.input = some inp → s.minst = expInst s.mask (sum inp)
-  iterOk : ∀ e c, e ∈ s.iter → s.circ = some c → e.2 = (c.m, expInst s.mask e.1)
-  nonSlos : s.kind ≠ .slos → s.layers = [] ∧ s.fsas = [] ∧ s.paths = []
-  slosInst : s.kind = .slos → ∀ mc, s.mask = some mc →
-    (∀ k, s.instN = some k → s.minst = some (mc.sid, k)) ∧
-    (s.instN = none → s.minst = none ∧ s.layers = [] ∧ s.fsas = [] ∧ s.paths = []) ∧
-    (∀ inp, s.input = some inp → s.instN = some (maskN mc.n (sum inp)))
-  layersOk : ∀ t c, t ∈ s.layers → s.circ = some c → t = (c.m, s.minst)
-  fsasOk : ∀ e c, e ∈ s.fsas → s.circ = some c → e.2 = (c.m, s.minst)
-  pathsOk : ∀ p c, p ∈ s.paths → s.circ = some c →
-    p.2 = c.uid ∧ sum p.1 ≤ s.layers.length ∧ (lookup (sum p.1) s.fsas).isSome = true
-  fockOk : s.kind = .slap → ∀ inp, s.input = some inp → s.fock = some (inp.length, sum inp)
-  mpsOk : s.kind = .mps → ∀ inp c, s.input = some inp → s.circ = some c →
-    s.compiled = some (inp, c.uid, effCut s.cutReq inp) ∧ s.cutCur = some (effCut s.cutReq inp)
-
-theorem invB_init (k : Kind) : InvB (initB k) := by
-  constructor <;> simp [initB]
+/- the invariant of the backend machine and everything about it: `Lemmas/C05Backend.lean` -/
 
 end PM.C05
